@@ -999,7 +999,8 @@ pub const FIELDS: [(&str, Ty); 10] = [
     ("T.n", Ty::Int),
     ("U.s", Ty::Str),
 ];
-pub const STRINGS: [&str; 5] = ["on", "off", "red", "blue", "hi there"];
+/// (the last two: a text and the same text wrapped in quote characters of the other kind)
+pub const STRINGS: [&str; 7] = ["on", "off", "red", "blue", "hi there", "yes", "'yes'"];
 
 pub fn field_ty(f: &str) -> Ty {
     FIELDS.iter().find(|(n, _)| *n == f).map(|(_, t)| *t).unwrap_or(Ty::Str)
